@@ -8,6 +8,7 @@ class C24(dfir.DfirSpec):
     theorems = ["C24_tick_counter", "C24_double_buffer", "C24_run_available", "C24_state_lifetimes"]
     modes = ("ticks", "avail", "avail")
     level = "other"
+    explanation = "Not category proof: the end-to-end delivery statement (items pushed in tick t are exactly what the consumer drains in tick t+1) is shipped as three proved lemmas (producer clear, swap, consumer drain) without the frame theorem that no other subgraph touches the handoff's buffers between them; external wake-ups during a tick are not in the model (C27); the lowering of the real meta graph to the model program (schedule list excludes lazy handoffs, swap placement) is Python validated by correspondence only."
     assumptions = [
         "external wake-ups are absent from the model (the harness only sends between calls; run_available_sync "
         "clears the flag first); wake-ups racing a running tick are property C27",
